@@ -80,7 +80,17 @@ ModelHelperRet(id, args) ==
           Add(Mul(args[3], FromNat(3)), Mul(args[4], FromNat(5)))),
       Add(Mul(args[5], FromNat(7)), LowHalf(FromInt(id))))
 
-ModelAnswer == [ret |-> ModelHelperRet(Cur.imm, HelperArgs), clob |-> [r \in 1..5 |-> reg[r]]]
+\* ... and it writes memory when asked to: with a3 = "poke" (0x706f6b65) and a4 = n in 1..8 it stores
+\* the low n bytes of a2 at address a1 (helpers that write through a pointer argument exist -
+\* memfrob - and compiled code must not keep a stale copy of such memory across the call)
+PokeMagic == << 101, 107, 111, 112, 0, 0, 0, 0 >>
+ModelHelperWrites(args) ==
+  IF args[3] = PokeMagic /\ args[4][1] \in 1..8 /\ (\A k \in 2..8 : args[4][k] = 0)
+  THEN << [addr |-> args[1], bytes |-> SubSeq(args[2], 1, args[4][1])] >>
+  ELSE << >>
+
+ModelAnswer == [ret |-> ModelHelperRet(Cur.imm, HelperArgs), clob |-> [r \in 1..5 |-> reg[r]],
+                wr |-> ModelHelperWrites(HelperArgs)]
 
 ExecNext == Step(ModelAnswer)
 
